@@ -38,7 +38,11 @@ import (
 )
 
 const (
-	MaxPacketLen     = 1024
+	// MaxPacketLen must hold the largest packet either side produces: a request
+	// or a response with eight cookie fields of the cookies issued by this
+	// implementation, 48 + 36 + 8*(4+124) + 40 = 1148 bytes. 1232 is the largest
+	// UDP payload that fits the IPv6 minimum MTU.
+	MaxPacketLen     = 1232
 	numStoredCookies = 8
 	ntpPacketLen     = 48
 )
